@@ -38,7 +38,7 @@ func genLogK(rt *rapid.T, w Weights, minOps, maxOps int, drivePct int) (*History
 	for i := 0; i < n && alive; i++ {
 		o := g.Next(rt, wd, h.Steps[len(h.Steps)-1].Post)
 		st, _ := h.Exec(o)
-		if o.Kind == OpBlock && !st.Res.OK {
+		if st.Op.Kind == OpBlock && !st.Res.OK {
 			alive = false
 		}
 	}
